@@ -26,6 +26,46 @@ def tupleCounts (ts : List Nat) (len : Nat) : List (List Nat × Nat) :=
   let distinct := (ws.foldl (fun acc w => if acc.contains w then acc else acc ++ [w]) [])
   distinct.map (fun w => (w, ws.count w))
 
+/-! ### the divergence itself (`gsl_div_1d_1_sample`, `compute_loss_1d`), parametric in the number type -/
+
+section Div
+variable {α : Type} [Add α] [Sub α] [Mul α] [Div α] [Neg α]
+
+/-- `get_words_est_prob`: relative frequencies of the distinct words -/
+def probs (ofNat : Nat → α) (words : List Nat) : List α :=
+  (countsOf words).map (fun c => ofNat c.2 / ofNat words.length)
+
+/-- `get_sh_entr(probs, base)`: `−Σ p · (log p / log base)` -/
+def entropy (zero : α) (log : α → α) (ps : List α) (base : α) : α :=
+  -((ps.map (fun p => p * (log p / log base))).foldl (· + ·) zero)
+
+/-- the contribution of one word length: `2·H(mixture) − H(sim) + correction`, correction =
+`((#distinct mixture words − 1) − (#distinct sim words − 1)) / (2·ts_length)` (computed in signed arithmetic) -/
+def divTerm (ofNat : Nat → α) (zero : α) (log : α → α) (pow : α → Nat → α) (sim obs : List Nat)
+    (nbValues tsLength len : Nat) : α :=
+  let simW := getWords sim len
+  let mW := simW ++ getWords obs len
+  let simP := probs ofNat simW
+  let mP := probs ofNat mW
+  let base := pow (ofNat nbValues) len
+  let corr := (ofNat (mP.length - 1) - ofNat (simP.length - 1)) / (ofNat 2 * ofNat tsLength)
+  ofNat 2 * entropy zero log mP base - entropy zero log simP base + corr
+
+/-- `gsl_div_1d_1_sample`: word lengths `1 … L`, running weight `Σ_{l' ≤ l} 2/(L(L+1))` -/
+def divOneSample (ofNat : Nat → α) (zero : α) (log : α → α) (pow : α → Nat → α) (sim obs : List Nat)
+    (nbWordLengths nbValues tsLength : Nat) : α :=
+  ((List.range nbWordLengths).foldl (fun (acc : α × α) i =>
+      let w := acc.2 + ofNat 2 / (ofNat nbWordLengths * ofNat (nbWordLengths + 1))
+      (acc.1 + w * divTerm ofNat zero log pow sim obs nbValues tsLength (i + 1), w)) (zero, zero)).1
+
+/-- `compute_loss_1d` on already discretised series: the mean over the ensemble -/
+def divEnsemble (ofNat : Nat → α) (zero : α) (log : α → α) (pow : α → Nat → α) (sims : List (List Nat)) (obs : List Nat)
+    (nbWordLengths nbValues tsLength : Nat) : α :=
+  (sims.map (fun s => divOneSample ofNat zero log pow s obs nbWordLengths nbValues tsLength)).foldl (· + ·) zero
+    / ofNat sims.length
+
+end Div
+
 /-- ideal low-pass mask of `n` ones followed by zeros (`mask[:n] = 1`) applied to a spectrum -/
 def idealLowPass {α : Type} [Mul α] (one zero : α) (spec : List α) (n : Nat) : List α :=
   spec.zipIdx.map (fun (x, i) => x * (if i < n then one else zero))
